@@ -4,14 +4,19 @@
 //! case formats (see lean/EmitModel/Driver/C16.lean):
 //!   (eq T T…)            T ::= (tpl KIND P…)   KIND ::= ref | owned | toowned | byref | lit
 //!                         P ::= (t xTEXT) | (h xLABEL F)   F ::= - | N (index into FORMATTERS)
+//!   (render T (props (xKEY V)…) PK FAIL)    V ::= (s xSTR) | (i N) | (b BOOL)
+//!                         PK ::= slice | (and K) | erased | with      FAIL ::= - | N
 
-use emit::template::{Formatter, Part};
-use emit::{Template, Value};
+use emit::template::{self, Formatter, Part};
+use emit::{Props, Template, Value};
 use hcommon::{Rng, Sexp, Stream, Tier};
 use std::fmt;
 
 pub fn streams() -> Vec<Stream> {
-    vec![Stream { name: "c16_eq", gen: gen_eq, run: run_eq }]
+    vec![
+        Stream { name: "c16_eq", gen: gen_eq, run: run_eq },
+        Stream { name: "c16_render", gen: gen_render, run: run_render },
+    ]
 }
 
 // ------------------------------------------------------------------ the case language
@@ -249,6 +254,199 @@ fn run_eq(line: &str) -> String {
     .unwrap_or_else(|| "bad-case".into())
 }
 
+// ------------------------------------------------------------------ c16_render
+
+#[derive(Clone, Debug)]
+enum V {
+    Str(String),
+    Int(i64),
+    Bool(bool),
+}
+
+#[derive(Clone, Debug)]
+enum PropsKind {
+    Slice,
+    And(usize),
+    Erased,
+    With,
+}
+
+fn parse_props(s: &Sexp) -> Option<Vec<(String, V)>> {
+    let (tag, items) = s.as_tagged()?;
+    if tag != "props" {
+        return None;
+    }
+    let mut out = Vec::new();
+    for it in items {
+        let kv = it.as_list()?;
+        if kv.len() != 2 {
+            return None;
+        }
+        let k = kv[0].as_string()?;
+        let (t, a) = kv[1].as_tagged()?;
+        if a.len() != 1 {
+            return None;
+        }
+        let v = match t {
+            "s" => V::Str(a[0].as_string()?),
+            "i" => V::Int(a[0].as_i64()?),
+            "b" => V::Bool(a[0].as_bool()?),
+            _ => return None,
+        };
+        out.push((k, v));
+    }
+    Some(out)
+}
+
+/// A `template::Write` that records every callback it receives and fails on callback number `fail_at`.
+struct Rec {
+    evs: Vec<String>,
+    fail_at: Option<usize>,
+}
+
+impl Rec {
+    fn push(&mut self, ev: String) -> fmt::Result {
+        if self.fail_at == Some(self.evs.len()) {
+            return Err(fmt::Error);
+        }
+        self.evs.push(ev);
+        Ok(())
+    }
+}
+
+impl fmt::Write for Rec {
+    fn write_str(&mut self, s: &str) -> fmt::Result {
+        // never reached through the four callbacks below; would show up as a foreign event
+        self.push(format!("RAW{}", hcommon::hex(s.as_bytes())))
+    }
+}
+
+impl template::Write for Rec {
+    fn write_text(&mut self, text: &str) -> fmt::Result {
+        self.push(format!("T{}", hcommon::hex(text.as_bytes())))
+    }
+    fn write_hole_value(&mut self, label: &str, value: Value) -> fmt::Result {
+        self.push(format!("V{}:{}", hcommon::hex(label.as_bytes()), hcommon::hex(value.to_string().as_bytes())))
+    }
+    fn write_hole_fmt(&mut self, label: &str, value: Value, formatter: Formatter) -> fmt::Result {
+        let shown = value.to_string();
+        let formatted = formatter.apply(value).to_string();
+        self.push(format!(
+            "F{}:{}:{}",
+            hcommon::hex(label.as_bytes()),
+            hcommon::hex(shown.as_bytes()),
+            hcommon::hex(formatted.as_bytes())
+        ))
+    }
+    fn write_hole_label(&mut self, label: &str) -> fmt::Result {
+        self.push(format!("L{}", hcommon::hex(label.as_bytes())))
+    }
+}
+
+fn unhex(h: &str) -> Vec<u8> {
+    hcommon::unhex_atom(&format!("x{}", h)).unwrap_or_default()
+}
+
+/// What the default callbacks would write for a recorded event (for the model-free oracle).
+fn default_bytes(ev: &str) -> Vec<u8> {
+    let (k, rest) = ev.split_at(1);
+    let f: Vec<&str> = rest.split(':').collect();
+    match k {
+        "T" => unhex(f[0]),
+        "V" => unhex(f[1]),
+        "F" => unhex(f[2]),
+        "L" => [b"{".to_vec(), unhex(f[0]), b"}".to_vec()].concat(),
+        _ => b"<foreign>".to_vec(),
+    }
+}
+
+fn observe<P: Props>(r: template::Render<P>, nparts: usize, fail_at: Option<usize>) -> String {
+    // (1) the `String` writer (all four trait defaults), (2) `Display` (the `fmt::Formatter` specialisation),
+    // (3) a custom writer, through `&mut W`
+    let mut s = String::new();
+    let sr = r.write(&mut s);
+    let d = r.to_string();
+    let mut rec = Rec { evs: Vec::new(), fail_at };
+    let rr = r.write(&mut rec);
+    let out = format!(
+        "s={} ev={} r={}",
+        hcommon::hex_atom(s.as_bytes()),
+        rec.evs.join(","),
+        if rr.is_ok() { "ok" } else { "err" }
+    );
+    let mut fail = None;
+    if sr.is_err() {
+        fail = Some("string-writer-failed".to_string());
+    } else if d != s {
+        fail = Some(format!("display-differs-from-string-writer({})", hcommon::hex(d.as_bytes())));
+    } else if rr.is_ok() && rec.evs.iter().flat_map(|e| default_bytes(e)).collect::<Vec<u8>>() != s.as_bytes() {
+        fail = Some("rendering-is-not-the-concatenation-of-its-callbacks".to_string());
+    } else if rr.is_ok() != fail_at.map(|k| k >= nparts).unwrap_or(true) {
+        fail = Some("error-not-propagated".to_string());
+    }
+    match fail {
+        None => out,
+        Some(f) => format!("{}\tFAIL:{}", out, f),
+    }
+}
+
+fn run_render(line: &str) -> String {
+    (|| -> Option<String> {
+        let s = Sexp::parse(line)?;
+        let (tag, args) = s.as_tagged()?;
+        if tag != "render" || args.len() != 4 {
+            return None;
+        }
+        let t = parse_tpl(&args[0])?;
+        let ps = parse_props(&args[1])?;
+        let pk = match &args[2] {
+            Sexp::Atom(a) if a == "slice" => PropsKind::Slice,
+            Sexp::Atom(a) if a == "erased" => PropsKind::Erased,
+            Sexp::Atom(a) if a == "with" => PropsKind::With,
+            l => {
+                let (tag, a) = l.as_tagged()?;
+                if tag != "and" || a.len() != 1 {
+                    return None;
+                }
+                let k = a[0].as_usize()?;
+                if k > ps.len() {
+                    return None;
+                }
+                PropsKind::And(k)
+            }
+        };
+        let fail_at = if args[3].as_atom()? == "-" { None } else { Some(args[3].as_usize()?) };
+        let vals: Vec<(&str, Value)> = ps
+            .iter()
+            .map(|(k, v)| {
+                (
+                    k.as_str(),
+                    match v {
+                        V::Str(s) => Value::from(s.as_str()),
+                        V::Int(i) => Value::from(*i),
+                        V::Bool(b) => Value::from(*b),
+                    },
+                )
+            })
+            .collect();
+        Some(with_templates(std::slice::from_ref(&t), |tpls| {
+            let tpl = &tpls[0];
+            let np = tpl.parts().count();
+            match pk {
+                PropsKind::Slice => observe(tpl.render(&vals[..]), np, fail_at),
+                PropsKind::And(k) => observe(tpl.render((&vals[..k]).and_props(&vals[k..])), np, fail_at),
+                PropsKind::Erased => {
+                    let slice = &vals[..];
+                    let erased: &dyn emit::props::ErasedProps = &slice;
+                    observe(tpl.render(erased), np, fail_at)
+                }
+                PropsKind::With => observe(tpl.render(emit::Empty).with_props(&vals[..]), np, fail_at),
+            }
+        }))
+    })()
+    .unwrap_or_else(|| "bad-case".into())
+}
+
 // ------------------------------------------------------------------ generators
 
 /// 1-, 2-, 3- and 4-byte characters; several share their leading UTF-8 bytes (é/è, €/‚, 🎈/📌), braces included.
@@ -413,6 +611,100 @@ fn gen_eq(rng: &mut Rng, tier: Tier, n: usize) -> Vec<String> {
             ts.push(T { kind, parts });
         }
         out.push(eq_case(&ts));
+    }
+    out
+}
+
+fn show_val(v: &V) -> Sexp {
+    match v {
+        V::Str(s) => Sexp::tagged("s", vec![Sexp::str(s)]),
+        V::Int(i) => Sexp::tagged("i", vec![Sexp::num(i)]),
+        V::Bool(b) => Sexp::tagged("b", vec![Sexp::bool(*b)]),
+    }
+}
+
+fn gen_val(rng: &mut Rng) -> V {
+    match rng.below(6) {
+        0 | 1 | 2 => {
+            let k = rng.usize(5);
+            V::Str((0..k).map(|_| *rng.pick(&CHARS)).collect())
+        }
+        3 => V::Int(*rng.pick(&[0, 1, -1, 42, -7, 1234567, i64::MAX, i64::MIN, 100000, 999999])),
+        4 => V::Int(rng.range(0, 2000000) as i64 - 1000000),
+        _ => V::Bool(rng.bool()),
+    }
+}
+
+fn render_case(t: &T, props: &[(String, V)], pk: &PropsKind, fail_at: Option<usize>) -> String {
+    let ps = props.iter().map(|(k, v)| Sexp::list(vec![Sexp::str(k), show_val(v)])).collect();
+    let pk = match pk {
+        PropsKind::Slice => Sexp::atom("slice"),
+        PropsKind::Erased => Sexp::atom("erased"),
+        PropsKind::With => Sexp::atom("with"),
+        PropsKind::And(k) => Sexp::tagged("and", vec![Sexp::num(k)]),
+    };
+    let fa = fail_at.map(Sexp::num).unwrap_or_else(|| Sexp::atom("-"));
+    Sexp::tagged("render", vec![show_tpl(t), Sexp::tagged("props", ps), pk, fa]).to_string()
+}
+
+fn gen_render(rng: &mut Rng, tier: Tier, n: usize) -> Vec<String> {
+    let mut out = Vec::new();
+    let tx = |s: &str| P::Text(s.to_string());
+    let h = |s: &str| P::Hole(s.to_string(), None);
+    // the unit test's templates (template::tests::render) and a few edges
+    for parts in [
+        vec![tx("text")],
+        vec![h("greet")],
+        vec![tx("Hello, "), h("greet"), tx("!")],
+        vec![tx("Hello"), h(""), tx("!")],
+        vec![],
+        vec![tx("")],
+        vec![h("greet"), h("greet")],
+        vec![P::Hole("greet".into(), Some(0)), P::Hole("greet".into(), Some(1)), P::Hole("nope".into(), Some(2))],
+    ] {
+        let kind = if matches!(&parts[..], [P::Text(_)]) { Kind::Lit } else { Kind::Ref };
+        let t = T { kind, parts };
+        out.push(render_case(&t, &[], &PropsKind::Slice, None));
+        out.push(render_case(&t, &[("greet".into(), V::Str("user".into()))], &PropsKind::Slice, None));
+        out.push(render_case(
+            &t,
+            &[("greet".into(), V::Str("user".into())), ("".into(), V::Int(1)), ("greet".into(), V::Str("other".into()))],
+            &PropsKind::And(1),
+            None,
+        ));
+    }
+    let max_segs = if tier == Tier::Thorough { 9 } else { 6 };
+    while out.len() < n {
+        let mut m = gen_meaning(rng, max_segs);
+        if m.is_empty() && rng.chance(4, 5) {
+            mutate(rng, &mut m);
+        }
+        let empties = rng.bool();
+        let mut parts = layout(rng, &m, empties);
+        for p in parts.iter_mut() {
+            if let P::Hole(_, f) = p {
+                if rng.chance(1, 3) {
+                    *f = Some(rng.usize(FORMATTERS.len()));
+                }
+            }
+        }
+        let labels: Vec<String> = parts.iter().filter_map(|p| if let P::Hole(l, _) = p { Some(l.clone()) } else { None }).collect();
+        let np = rng.usize(6);
+        let props: Vec<(String, V)> = (0..np)
+            .map(|_| {
+                let k = if !labels.is_empty() && rng.chance(2, 3) { rng.pick(&labels).clone() } else { rng.pick(&LABELS).to_string() };
+                (k, gen_val(rng))
+            })
+            .collect();
+        let pk = match rng.below(5) {
+            0 | 1 => PropsKind::Slice,
+            2 => PropsKind::And(rng.usize(props.len() + 1)),
+            3 => PropsKind::Erased,
+            _ => PropsKind::With,
+        };
+        let fail_at = if rng.chance(1, 4) { Some(rng.usize(parts.len() + 2)) } else { None };
+        let kind = pick_kind(rng, &parts);
+        out.push(render_case(&T { kind, parts }, &props, &pk, fail_at));
     }
     out
 }
